@@ -67,7 +67,7 @@ def parseRoute (s : String) : Route :=
   | ["regen"] => .recoveryRegen
   | ["vstart", k] => .verifyStart (k == "sms") | ["vend", k] => .verifyEnd (k == "sms")
   | ["prot", r, f, mp, p] => .protected_ (r.toNat?.getD 0) (f.toNat?.getD 0) (mp == "1") ((fromHex p).getD [])
-  | ["open"] => .open_ | ["lockmw"] => .lockmw | ["confirmmw"] => .confirmmw
+  | ["open"] => .open_ | ["lockmw"] => .lockmw | ["confirmmw"] => .confirmmw | ["rootmw"] => .rootmw
   | _ => .notFound
 
 def parseList (s : String) : List Bytes := (splitNE s ",").filterMap fromHex
